@@ -34,6 +34,10 @@ type PropSpec struct {
 	// Also: other ledgers whose functions this property depends on (e.g. the DH checks that the key
 	// exchange calls): they are checked too, in their own package load, and reported under this property
 	Also []string `json:"also"`
+	// ThoroughPackages / ThoroughFunctions: additional packages and functions checked only by the
+	// thorough tier (e.g. the larger generated packages of C21)
+	ThoroughPackages  []string  `json:"thorough_packages"`
+	ThoroughFunctions []FuncRef `json:"thorough_functions"`
 }
 
 type FuncRef struct {
@@ -131,6 +135,10 @@ func cmdCheck(argv []string) int {
 	eng.known = known
 	knownObls := 0
 	knownUndischarged := 0
+	if *tier == "thorough" {
+		spec.Packages = append(spec.Packages, spec.ThoroughPackages...)
+		spec.Functions = append(spec.Functions, spec.ThoroughFunctions...)
+	}
 	if err := eng.load(spec.Packages); err != nil {
 		fmt.Fprintln(os.Stderr, "load:", err)
 		// a tree that does not compile cannot be verified: report as infrastructure error
